@@ -22,7 +22,15 @@ func verifSameBlockCall(c verifEvCall, op string, chid datatransfer.ChannelID, b
 // block sent) with an arbitrary request ID (one of the three known requests or none), an
 // arbitrary block (on-wire size zero or not) and every handler answer (nil / ErrPause /
 // another error, with or without a message to attach).
-func VerifC16_BlockHooks() {
+func VerifC16_BlockHooks() { verifBlockHooks() }
+
+// VerifC07_NotOnWireNotAccounted: the transport half of property C07 ("blocks that were not put
+// on the wire produce no queued or sent accounting", "a report is made for the owning channel
+// with the block's size, position and on-wire flag"): the same harness under C07's name, so that
+// C07's own check covers the filter in front of the accounting.
+func VerifC07_NotOnWireNotAccounted() { verifBlockHooks() }
+
+func verifBlockHooks() {
 	w := verifNewWorld()
 	rid := verifRid("rid")
 	p := peer.ID(zz.String("p"))
